@@ -374,6 +374,51 @@ def renest_else(ref_fn, cur_fn) -> int:
     return n
 
 
+_SYM_OPS = (ast.Eq, ast.NotEq, ast.Is, ast.IsNot)
+
+
+def align_compares(ref_fn, cur_fn) -> int:
+    """`b == a` -> `a == b` (also !=, is, is not) where the swapped spelling occurs in the reference function and the spelling as written does not.
+    Swapping the operands of a symmetric comparison preserves behaviour; the reference only selects the spelling the rules were written against."""
+    import copy as _copy
+
+    def shape(node) -> str:
+        # name-insensitive spelling: local renames must not keep a comparison from being recognised (and the comparison, once aligned, is what
+        # lets the statement unify so that the names can be mapped back)
+        t = _copy.deepcopy(node)
+        for x in ast.walk(t):
+            if isinstance(x, ast.Name):
+                x.id = "_"
+        return ast.unparse(t)
+
+    ref_cmp = [n for n in ast.walk(ref_fn) if isinstance(n, ast.Compare) and len(n.ops) == 1 and isinstance(n.ops[0], _SYM_OPS)]
+    ref_texts = {shape(n) for n in ref_cmp}
+    ref_exact = {ast.unparse(n) for n in ref_cmp}
+    if not ref_texts:
+        return 0
+    n = 0
+    for c in ast.walk(cur_fn):
+        if isinstance(c, ast.Compare) and len(c.ops) == 1 and isinstance(c.ops[0], _SYM_OPS):
+            if ast.unparse(c) in ref_exact:
+                continue
+            sw = ast.Compare(left=c.comparators[0], ops=c.ops, comparators=[c.left])
+            if ast.unparse(sw) in ref_exact:
+                c.left, c.comparators = sw.left, sw.comparators
+                n += 1
+                continue
+            if shape(c) in ref_texts:
+                continue
+            swapped = ast.Compare(left=c.comparators[0], ops=c.ops, comparators=[c.left])
+            opp = {ast.Eq: ast.NotEq, ast.NotEq: ast.Eq, ast.Is: ast.IsNot, ast.IsNot: ast.Is}[type(c.ops[0])]()
+            as_written_neg = ast.Compare(left=c.left, ops=[opp], comparators=c.comparators)
+            swapped_neg = ast.Compare(left=c.comparators[0], ops=[opp], comparators=[c.left])
+            # also when only the *negated* spelling occurs in the reference (a later branch alignment will flip the test)
+            if shape(swapped) in ref_texts or (shape(as_written_neg) not in ref_texts and shape(swapped_neg) in ref_texts):
+                c.left, c.comparators = swapped.left, swapped.comparators
+                n += 1
+    return n
+
+
 def normalise_module(rel: str, tree: ast.AST) -> int:
     """Strip no-op statements, align branch polarity with the reference spelling, and rename locals of `tree` in place back to
     reference names; returns the number of rewrites."""
@@ -386,20 +431,28 @@ def normalise_module(rel: str, tree: ast.AST) -> int:
         rf = ref_fns.get(q)
         if rf is None:
             continue
-        n += inline_adjacent_temps(rf, cur)
-        n += renest_else(rf, cur)
-        n += align_branches(rf, cur)
-        mp = _mapping(rf, cur)
-        if not mp:
-            continue
-        inv = {c: r for r, c in mp.items()}
-        # do not create collisions with existing names
-        existing = {x.id for x in ast.walk(cur) if isinstance(x, ast.Name)} | {a.arg for a in ast.walk(cur) if isinstance(a, ast.arg)}
-        inv = {c: r for c, r in inv.items() if r not in existing or r in inv}
-        for x in ast.walk(cur):
-            if isinstance(x, ast.Name) and x.id in inv:
-                x.id = inv[x.id]
-            elif isinstance(x, ast.ExceptHandler) and x.name in inv:
-                x.name = inv[x.name]
-        n += len(inv)
+        # the steps enable one another (a comparison over renamed locals can only be aligned after the names are mapped back, a branch can only
+        # be aligned once the comparisons inside it are): iterate to a fixpoint (bounded)
+        for _round in range(3):
+            k = 0
+            k += inline_adjacent_temps(rf, cur)
+            k += renest_else(rf, cur)
+            k += align_compares(rf, cur)
+            k += align_branches(rf, cur)
+            mp = _mapping(rf, cur)
+            if mp:
+                inv = {c: r for r, c in mp.items() if c != r}
+                # do not create collisions with existing names
+                existing = {x.id for x in ast.walk(cur) if isinstance(x, ast.Name)} | {a.arg for a in ast.walk(cur) if isinstance(a, ast.arg)}
+                inv = {c: r for c, r in inv.items() if r not in existing or r in inv}
+                for x in ast.walk(cur):
+                    if isinstance(x, ast.Name) and x.id in inv:
+                        x.id = inv[x.id]
+                    elif isinstance(x, ast.ExceptHandler) and x.name in inv:
+                        x.name = inv[x.name]
+                k += len(inv)
+                k += align_compares(rf, cur)
+            n += k
+            if k == 0:
+                break
     return n
